@@ -4,15 +4,23 @@
   Model: `Sge.Subaccount` (x/subaccount message servers, keeper, hooks; reward top-ups). Histories are arbitrary
   lists of `Op` (create / top-up / withdraw-unlocked / wager / house-deposit / house-withdraw / reward grant /
   settlement callbacks in any order / direct bank sends / block-time advances) run from `init fixed bank0`.
-  `fixed = false` is the code as it is, `fixed = true` the code with repo_patches/sub_unlocked_withdraw.diff.
+  `init false …` is the code as it is. Three independent model flags select the patched code:
+    `fixed`    repo_patches/sub_unlocked_withdraw.diff    (unlocked total minus what was already withdrawn)
+    `fixedNeg` repo_patches/sub_wager_nonneg_deduct.diff  (wager ticket payload rejects negative deductions)
+    `fixedRet` repo_patches/sub_wager_return_untaken.diff (what the bet module did not take goes back to the subaccount)
 
   The calls into x/bet, x/house, x/orderbook are parameters of the operations (modelling boundary); theorems that
   depend on what those modules do state the contract they need (`ExtOK`, `ExtExact`, `charged`), the
   correspondence suite checks that contract on the real modules (monitor `ext_contract`, `locked_exit_only_staked`).
 
-  STATUS on the unchanged tree: `lock_bound` is FALSE of the code as it is (`c11_lock_bound_counterexample`,
-  reproduced on /repo by the suite, monitor class `withdraw-unlocked-repeated`); what does hold is
-  `c11_lock_bound_partial`; the full bound `c11_lock_bound` is proved for the patched variant.
+  STATUS on the unchanged tree (each reproduced on /repo by the suite):
+   * `lock_bound` is FALSE of the code as it is (`c11_lock_bound_counterexample`, monitor class
+     `withdraw-unlocked-repeated`); what does hold is `c11_lock_bound_partial`; the full bound `c11_lock_bound` is
+     proved for the patched variant.
+   * "a subaccount wager never increases the owner's free balance" is FALSE of the code as it is
+     (`c11_wager_negative_deduct_counterexample`, class `wager-negative-main-deduct`;
+      `c11_wager_undercharged_counterexample`, class `wager-undercharged-by-bet-module`); what does hold is
+     `c11_wager_no_gain_partial`; `c11_wager_no_gain` is proved for the patched variant.
 -/
 import SgeProofs.Lemmas.SubaccountWager
 namespace Sge.Subaccount
@@ -205,24 +213,26 @@ theorem c11_transfers_to_owner_kinds (fixed : Bool) (bank0 : Nat → Int) (hb : 
   have hok := (run_inv (init_inv fixed bank0 hb) ops).subOK a sub h
   exact ⟨hok.toOwnerSplit, hok.wdSplit, hok.relNonneg, hok.wagNonneg, hok.profNonneg⟩
 
-/-- C11.g `locked_exit_only_staked`, wager step: a successful subaccount wager of a key-holding owner (not a custody module account) changes the
-    owner's free balance by exactly (subaccount deduction − what the bet module charged). So the deduction is
-    moved on into custody — the owner's free balance does not grow — iff the bet module charges at least the
-    deduction. (On the unchanged tree it does not always: zero-part and under-charged bets, DESIGN.md §9 items 1–2;
-    the suite's monitor class `wager-deduct-not-staked`.) -/
+/-- C11.g `locked_exit_only_staked`, wager step: a successful subaccount wager of a key-holding owner (not a
+    custody module account) changes the owner's free balance by exactly
+    (subaccount deduction − what the bet module charged − what the patched code sends back). On the code as it
+    is (`fixedRet = false`, nothing is sent back) the deduction is therefore moved on into custody — the owner's
+    free balance does not grow — iff the bet module charges at least the deduction. On the unchanged tree it does
+    not always: under-charged and zero-part bets, DESIGN.md §9 items 1–2 (suite monitor class
+    `wager-undercharged-by-bet-module`), and tickets with a negative main-account deduction (class
+    `wager-negative-main-deduct`). -/
 theorem c11_wager_owner_balance (s : State) (hinv : Inv s) (hop : OwnersPlain s) (owner : Nat) (main sub : Int) (x : WagerExt)
     (hne : owner ≠ extAcct) (hok : (wager s owner main sub x).2 = .ok) :
-    (wager s owner main sub x).1.bank owner = s.bank owner + sub - x.charged := by
-  obtain ⟨a, s1, hown, hw, heq, _, _⟩ := wager_ok_spec hok
-  obtain ⟨ho, ha, _⟩ := owner_plain hinv hop hown
-  rw [heq] at hok ⊢
-  have hne2 : owner ≠ a := by omega
-  rw [wagerBet_ok_bank hok hne, withdrawLockedAt_ok_bank hw hne2]
+    (wager s owner main sub x).1.bank owner =
+      s.bank owner + sub - x.charged - (if s.fixedRet then max 0 (min (main + sub - x.charged) sub) else 0) := by
+  have := wager_owner_balance hinv hop hne hok
+  simpa [returned] using this
 
 /-
-  Full statement wanted for every wager step (FALSE of the code as it is, see the counter-example below):
-  "when the bet module charges exactly the bet amount, a successful subaccount wager never increases the owner's
-   free balance".
+  Full statement wanted for every wager step (FALSE of the code as it is, see the two counter-examples below):
+    "a successful subaccount wager never increases the owner's free balance"
+      theorem c11_wager_no_gain_asis (s) (hinv) (hop) (owner main sub x) (hne) (hok : (wager s owner main sub x).2 = .ok) :
+        (wager s owner main sub x).1.bank owner ≤ s.bank owner
 -/
 
 /-- 100 locked until time 50; at time 0 a ticket with main-account deduction −95 and subaccount deduction 100 for a
@@ -231,7 +241,7 @@ def negCex : List Op :=
   [.fund 0 1000, .create 0 1 [(50, 100)],
    .wager 1 (-95) 100 { pre := 0, betAmount := 5, wagerOk := true, charged := 5 }]
 
-/-- C11.g COUNTER-EXAMPLE for the code as it is: the bet module charges the full bet amount (5), yet 95 locked
+/-- C11.g COUNTER-EXAMPLE 1 for the code as it is: the bet module charges the full bet amount (5), yet 95 locked
     tokens end up in the owner's free balance although nothing has been unlocked or released. -/
 theorem c11_wager_negative_deduct_counterexample :
     (run (init false (fun _ => 0)) negCex).bank 1 = 95 ∧
@@ -247,27 +257,50 @@ theorem c11_wager_negative_deduct_cex_fixed :
     (run (init2 false true (fun _ => 0)) negCex).bank 1 = 0 := by
   constructor <;> decide
 
-/-- C11.g `wager_no_gain` (patched payload validation, `fixedNeg = true`): if the bet module charges exactly the bet
-    amount, a successful subaccount wager never increases the owner's free balance — the whole subaccount
-    deduction is moved on into custody. -/
+/-- 100 locked until time 50; a wager of 9 paid entirely by the subaccount of which the bet module takes only 1
+    (a bet whose stake needs no liquidity is charged the fee only — observed on the unchanged tree) -/
+def underCex : List Op :=
+  [.fund 0 1000, .create 0 1 [(50, 100)],
+   .wager 1 0 9 { pre := 0, betAmount := 9, wagerOk := true, charged := 1 }]
+
+/-- C11.g COUNTER-EXAMPLE 2 for the code as it is: 8 locked tokens stay in the owner's free balance. -/
+theorem c11_wager_undercharged_counterexample :
+    (run (init2 false true (fun _ => 0)) underCex).bank 1 = 8 ∧
+    ((run (init2 false true (fun _ => 0)) underCex).subs (addrOf 1)).map
+      (fun sub => (sub.released, unlockedSum (run (init2 false true (fun _ => 0)) underCex).now sub.locks, sub.sum.withdrawn))
+      = some (0, 0, 9) := by
+  constructor <;> decide
+
+/-- with repo_patches/sub_wager_return_untaken.diff the 8 tokens go back to the subaccount -/
+theorem c11_wager_undercharged_cex_fixed :
+    (run (initFixed (fun _ => 0)) underCex).bank 1 = 0 ∧
+    (run (initFixed (fun _ => 0)) underCex).bank (addrOf 1) = 99 ∧
+    ((run (initFixed (fun _ => 0)) underCex).subs (addrOf 1)).map (fun sub => sub.sum.withdrawn) = some 1 := by
+  refine ⟨?_, ?_, ?_⟩ <;> decide
+
+/-- C11.g `wager_no_gain` (code with sub_wager_nonneg_deduct.diff and sub_wager_return_untaken.diff): a successful
+    subaccount wager never increases the owner's free balance, whatever the bet module charges — the whole
+    subaccount deduction is either moved on into custody or returned to the subaccount. -/
 theorem c11_wager_no_gain (s : State) (hinv : Inv s) (hop : OwnersPlain s) (owner : Nat) (main sub : Int) (x : WagerExt)
-    (hne : owner ≠ extAcct) (hfix : s.fixedNeg = true) (hch : x.charged = x.betAmount)
+    (hne : owner ≠ extAcct) (hneg : s.fixedNeg = true) (hret : s.fixedRet = true) (hch : 0 ≤ x.charged)
     (hok : (wager s owner main sub x).2 = .ok) :
     (wager s owner main sub x).1.bank owner ≤ s.bank owner := by
-  obtain ⟨_, _, _, _, _, hsum, hnn⟩ := wager_ok_spec hok
-  have := hnn hfix
-  rw [c11_wager_owner_balance s hinv hop owner main sub x hne hok]
+  obtain ⟨_, _, _, hsum, hnn⟩ := wager_ok_spec hok
+  have := hnn hneg
+  rw [c11_wager_owner_balance s hinv hop owner main sub x hne hok, hret]
+  simp only [if_true]
   omega
 
-/-- C11.g `wager_no_gain_partial` (code as it is): the same conclusion for tickets whose two deductions are
-    non-negative. Excluded: tickets with a negative main-account or subaccount deduction. -/
+/-- C11.g `wager_no_gain_partial` (code as it is): the same conclusion when the ticket's main-account deduction is
+    non-negative and the bet module charges exactly the bet amount.
+    Excluded: tickets with a negative deduction; bets the bet module charges less than the requested amount. -/
 theorem c11_wager_no_gain_partial (s : State) (hinv : Inv s) (hop : OwnersPlain s) (owner : Nat) (main sub : Int) (x : WagerExt)
     (hne : owner ≠ extAcct) (hmain : 0 ≤ main) (hch : x.charged = x.betAmount)
     (hok : (wager s owner main sub x).2 = .ok) :
     (wager s owner main sub x).1.bank owner ≤ s.bank owner := by
-  obtain ⟨_, _, _, _, _, hsum, _⟩ := wager_ok_spec hok
+  obtain ⟨_, _, _, hsum, _⟩ := wager_ok_spec hok
   rw [c11_wager_owner_balance s hinv hop owner main sub x hne hok]
-  omega
+  split <;> omega
 
 /-- non-vacuity: a concrete history with real structure (two owners, top-up by a third party, reward grant, house
     deposit, settlement callbacks, wager) satisfies the hypotheses of the theorems above: every op respects
